@@ -239,6 +239,41 @@ def run(ctx):
             ctx.broke("correspondence:" + rp["kind"], "%s cell atoms %s: impl %.6f model %.6f" % (mode, idx, got[True], mw))
     ctx.counters["excluded ill-conditioned or near ties"] = excluded
 
+    # ---- a long trajectory (several hundred frames) whose cell changes from frame to frame, the molecule split across faces in every frame:
+    # every frame inside the trajectory must give what it gives alone, in both code paths (blocked or batched kernels must carry the cell along)
+    for mode_ in ("ortho", "tri"):
+        parts = []
+        base_ = make(md, rng, mode_)
+        nf_ = 300 if ctx.quick else 700
+        xyz_ = np.repeat(base_.xyz, nf_, axis=0).copy()
+        vec_ = np.repeat(base_.unitcell_vectors, nf_, axis=0).astype(np.float64)
+        whole_ = xyz_[0].astype(np.float64)
+        for f in range(nf_):
+            sc = 1.0 + 0.2 * ((f * 37) % 101) / 101.0                   # a cell that breathes: no two frames 256 apart alike
+            vec_[f] = base_.unitcell_vectors[0].astype(np.float64) * sc
+            shift = np.array([[((f + 3 * a) % 5 - 2), ((2 * f + a) % 3 - 1), ((f + a) % 4 - 2)] for a in range(base_.n_atoms)], dtype=np.float64)
+            xyz_[f] = (whole_ + shift @ vec_[f]).astype(np.float32)
+        tl = md.Trajectory(xyz_, base_.topology)
+        tl.unitcell_vectors = vec_.astype(np.float32)
+        n_ = tl.n_atoms
+        trip_ = np.array([(i, i + 1, i + 2) for i in range(n_ - 2)])
+        quad_ = np.array([(i, i + 1, i + 2, i + 3) for i in range(n_ - 3)])
+        ctx.case(None, ("long-varying-cell", mode_)); ctx.count("long trajectories with a varying cell")
+        for nm_, fn_, idx_ in (("compute_angles", md.compute_angles, trip_), ("compute_dihedrals", md.compute_dihedrals, quad_)):
+            full_o = fn_(tl, idx_, periodic=True, opt=True)
+            full_r = fn_(tl, idx_, periodic=True, opt=False)
+            bad_ = None
+            for f in sorted(set([0, 1, 255, 256, 257, nf_ - 1] + [rng.randrange(nf_) for _ in range(12)])):
+                alone = fn_(tl[f], idx_, periodic=True, opt=True)[0]
+                d1 = np.abs(full_o[f] - alone); d2 = np.abs(full_o[f] - full_r[f])
+                if nm_ == "compute_dihedrals":
+                    d1 = np.minimum(d1, 2 * np.pi - d1); d2 = np.minimum(d2, 2 * np.pi - d2)
+                if d1.max() > 1e-4 or d2.max() > 3e-3:
+                    bad_ = (f, float(d1.max()), float(d2.max()))
+                    break
+            if bad_:
+                viol("%s|long-trajectory|%s" % (nm_, mode_), "%s on %d frames with a cell that changes from frame to frame (%s): frame %d inside the trajectory differs from the frame alone by %.3g and from the reference path by %.3g" % (
+                    nm_, nf_, mode_, bad_[0], bad_[1], bad_[2]), dict(mode=mode_, frame=bad_[0]))
     # ---- indices beyond the range of the 32-bit integers the kernels take must be refused, not wrapped around
     tw = make(md, rng, "none")
     for fn, row in ((md.compute_angles, [0, 1, 2 ** 32 + 2]), (md.compute_dihedrals, [0, 1, 2, 2 ** 32 + 3]), (md.compute_distances, [0, 2 ** 32 + 1])):
